@@ -155,7 +155,7 @@ def c04(tier):
             B = scen.block_hint(fmt, ch, rate)
             Ns = sorted(set(n for n in [0, 1, B - 1, B, B + 1, 3, 2 * B + 1, 701] if n >= 0))
             if rate != RATE:
-                Ns = [1, B + 1]
+                Ns = sorted(set(n for n in [1, B - 1, B + 1] if n >= 1))      # just below a block: a header that disagrees with the codec's block size shows as F < N
             for stale in ([0, 1000000000] if tier == "quick" else [0, 1, 1000000000]):
                 gen_core.wr_scenarios(S, fmt, ch, rate, ["s"] if stale else ["s", "f"], Ns, rng, stale=stale, splits=1 if tier == "quick" else 3, seeks=False,
                                       cfg={"stale": stale, "rate": rate})
@@ -436,6 +436,12 @@ def c19(tier):
     # every encoding: readers of different files of the same kind, interleaved seeks across all blocks
     for fmt, ch in ([x for x in allf if x[1] == 1] if tier == "quick" else allf):
         gen_env.c19_codec_pairs(S, fmt, ch, RATE, rng, k=2 if tier == "quick" else 3, steps=12 if tier == "quick" else 30)
+    # earlier library use = parsing arbitrary (mutated) files of the same codec: reader undisturbed, later writer byte identical
+    od = os.path.join(vlib.ROOT, "out", "C19", tier)
+    os.makedirs(od, exist_ok=True)
+    ff = [x for x in allf if x[1] == 1 and scen.route_for(x[0]) == "vio"] if tier == "quick" else [x for x in allf if scen.route_for(x[0]) == "vio"]
+    fseeds = gen_c03.seed_files(exe, ff, RATE, od, nframes=lambda f, c: min(2 * scen.block_hint(f, c, RATE) + 5, 9000) if scen.block_hint(f, c, RATE) > 1 else 200, meta=False, tag="c19seed")
+    gen_env.c19_foreign(S, fseeds, RATE, rng, nmut=12 if tier == "quick" else 40)
     mcs = [gen_core.mc_rw("RW", 2, tag=tier[0], maxwrites=1)]
     return core_check("C19", tier, mcs, S.lines, "DESIGN.md section 6 C19",
                       "2..8 handles on distinct backing stores (same-codec sets, codec-family mixes, random formats), calls merged at random or round robin, each handle validated against its own model state; then every workload again alone: same data and byte identical files (SameBytesOK); plus several interleaved readers of one file sharing the content map (decoder state per handle)",
